@@ -515,7 +515,9 @@ func runCSOrder(c *core.Ctx) {
 					bools := []string{atomNil, atomAb, atomDone}
 					rows := []dtRow{
 						{fn: "MPCalContext.Run", key: "aborts-exactly-the-aborted-outcome", why: "abort() runs exactly when the section outcome is ErrCriticalSectionAborted",
-							find: func(inf *types.Info, n ast.Node) bool { return callsMethodOf(inf, n, an.PkgDistsys, "MPCalContext", "abort") }, bools: bools, assume: assume, existsOthers: true,
+							find: func(inf *types.Info, n ast.Node) bool {
+								return callsMethodOf(inf, n, an.PkgDistsys, "MPCalContext", "abort")
+							}, bools: bools, assume: assume, existsOthers: true,
 							ref: func(a dtAtoms) bool { return a.B(atomAb) }},
 						{fn: "MPCalContext.Run", key: "returns-other-errors", why: "any other non-nil outcome except ErrDone ends Run with that error",
 							find: func(inf *types.Info, n ast.Node) bool {
